@@ -11,8 +11,7 @@ import vf
 import c10 as W
 
 PROP = "C11"
-THEOREMS = ["commit_markers_unchained_refuted", "commit_removal_refuted", "commit_duplicate_refuted",
-            "commit_swap_refuted", "record_damage", "payload_damage_detected", "digest_damage_rejected",
+THEOREMS = ["commit_selection_detected", "record_damage", "payload_damage_detected", "digest_damage_rejected",
             "interior_frame_deletion_rejected", "duplicated_frame_rejected"]
 ZERO_LENS = [1, 2, 4, 8, 16, 32, 64]
 
@@ -275,17 +274,16 @@ def api_model(r, tier, cases, lines):
     return checked, differing, msgs
 
 
-# Not registered yet (the coordinator renames this to MANIFEST once `./check C11` exits 0, i.e. after finding F7 -
-# signatures wal:commit-marker-removed-accepted / -duplicated-accepted / wal:commit-markers-reordered-accepted -
-# is fixed in /repo or listed in known_findings.jsonl).
-MANIFEST_PENDING = {
+MANIFEST = {
     "category": "proof",
     "text": ("Coq theorems (no axioms, hash universally quantified) over the byte-level WAL model shared with C10: damage "
              "confined to one disk record leaves earlier records intact and yields an error, a torn-tail prefix, or the explicit "
              "hash event (the reader's digest check passing on bytes that are not the original record); payload/kind damage "
-             "with intact length and digest is rejected or exhibits a collision; digest damage is always rejected. The "
-             "structural part of the property is REFUTED on the faithful model, universally: on the frames of any valid log "
-             "every selection of its commit markers (removed, duplicated, reordered) is accepted. Tie: the model is run "
+             "with intact length and digest is rejected or exhibits a collision; digest damage is always rejected; a deleted "
+             "interior frame or a duplicated frame breaks LSN continuity; any list of a valid log's own commit markers "
+             "(removed, duplicated, reordered) is rejected unless it is a prefix, in which case the recovered history is that "
+             "prefix (this was false before /repo commit a96d311 - finding F7, reproduced at every layer incl. "
+             "TrustedRuntimeHost::enable_runtime_wal and kept as regression cases with the signatures armed). Tie: the model is run "
              "(vm_compute, real blake3 digests as a table) on the same flipped / zeroed / edited real bytes and compared "
              "with recover_wal_segment_bytes / recover_filesystem_store / recover_from_frames_and_commits; the harness "
              "checks the property itself (typed error or a prefix of the committed history) under every bit flip and aligned "
